@@ -62,7 +62,7 @@ def cases(draw, tier="quick"):
     if batch:
         vals = vals + draw(st.lists(st.sampled_from(alpha), min_size=n, max_size=n))
     lab = gen.draw_labels(
-        draw, n, kinds=["int", "int", "float", "str"], max_groups=8 if big else 4,
+        draw, n, kinds=["int", "int", "float", "str", "u1"], max_groups=8 if big else 4,
         styles=["random", "periodic", "periodic", "runs", "constant", "blocks"] + (["blocks", "random"] if big else []),
     )  # fmt: skip
     case = {"arr": {"dt": dt, "sh": batch + [n], "v": vals}, "by": lab["spec"], "func": func}
